@@ -286,12 +286,31 @@ def namedSubshapesMembers : Members → List (String × Shape)
   | (_, s) :: l => namedSubshapes s ++ namedSubshapesMembers l
 end
 
-/-- D16: two different sub-shapes receive the same type name (the name hashes the value types only).
-Top-level optional flags are part of the name, so equal names with different shapes differ in keys
-or nested structure. -/
+mutual
+/-- the shape with every member name replaced by a fixed one (members keep their order) -/
+def eraseKeys : Shape → Shape
+  | .array t o => .array (eraseKeys t) o
+  | .object c o => .object (eraseKeysMembers c) o
+  | .oneOf vs o => .oneOf (eraseKeysList vs) o
+  | .tuple es o => .tuple (eraseKeysList es) o
+  | s => s
+def eraseKeysList : List Shape → List Shape
+  | [] => []
+  | s :: l => eraseKeys s :: eraseKeysList l
+def eraseKeysMembers : Members → Members
+  | [] => []
+  | (_, s) :: l => ("", eraseKeys s) :: eraseKeysMembers l
+end
+
+/-- the recorded defect class D16 for a pair: different shapes that differ in member names only -/
+def keysOnly (a b : Shape) : Bool :=
+  cmp a b != .eq && cmp (eraseKeys a) (eraseKeys b) == .eq
+
+/-- D16: two sub-shapes that differ only in member names receive the same type name (the name
+hashes the value types only). -/
 def nameClash (s : Shape) : Bool :=
   let l := namedSubshapes s
-  l.any fun a => l.any fun b => a.1 == b.1 && cmp a.2 b.2 != .eq
+  l.any fun a => l.any fun b => a.1 == b.1 && keysOnly a.2 b.2
 
 def rustKeywords : List String :=
   ["as", "break", "const", "continue", "crate", "else", "enum", "extern", "false", "fn", "for", "if", "impl",
